@@ -450,3 +450,36 @@ def run_fragment(stmts, env, hooks=None, check_axes=True):
     except Ctl as c:
         return I, c
     return I, None
+
+
+class Chooser:
+    """Scripted outcomes for tests on opaque values; unexplored positions default to False and are queued for the other outcome."""
+
+    def __init__(self, script):
+        self.script = list(script)
+        self.i = 0
+
+    def __call__(self, interp=None, node=None):
+        if self.i < len(self.script):
+            c = self.script[self.i]
+        else:
+            c = False
+            self.script.append(False)
+        self.i += 1
+        return c
+
+
+def explore(run, max_worlds=64):
+    """Run `run(chooser)` for every combination of outcomes of the opaque tests it meets (depth-first, bounded).
+    Returns [(script, result)]."""
+    out = []
+    stack = [[]]
+    while stack and len(out) < max_worlds:
+        script = stack.pop()
+        ch = Chooser(script)
+        n0 = len(script)
+        res = run(ch)
+        out.append((tuple(ch.script), res))
+        for i in range(n0, len(ch.script)):
+            stack.append(ch.script[:i] + [True])
+    return out
